@@ -28,7 +28,13 @@ ALPHA_WIDE = ALPHA + [("f", "ab", ("only",)), ("g", "alpha 2", tuple(range(1990,
 
 
 def mkdims(fd):
-    return {l: fd.Dimension(letter=l, name=n, items=list(it)) for l, n, it in ALPHA}
+    out = {}
+    for l, n, it in ALPHA:
+        own = list(it)
+        out[l] = fd.Dimension(letter=l, name=n, items=own)
+        own.append("added to the user's list afterwards")  # the list the user built the dimension from stays the user's
+        own.reverse()
+    return out
 
 
 def ordered_subsets(letters):
@@ -177,7 +183,24 @@ def run_history(rec, hub, D, seed, shard, nshards, tier, h, length):
     def fresh_set():
         k = rng.randint(0, 7 if wide else 4)
         ls = rng.sample(letters, k)
-        return fd.DimensionSet(dim_list=[D[l] for l in ls]), LDimSet([O.dkey(D[l]) for l in ls])
+        own_list = [D[l] for l in ls]
+        ds_ = fd.DimensionSet(dim_list=own_list)
+        m_ = LDimSet([O.dkey(D[l]) for l in ls])
+        r_ = rng.random()
+        if r_ < 0.15:
+            own_list.append(twins[letters[0]])  # the user's own list goes on being edited: the set is a set of its own
+            own_list.reverse()
+        elif r_ < 0.25:
+            import pickle
+
+            ds_ = pickle.loads(pickle.dumps(ds_))
+        elif r_ < 0.35:
+            import copy
+
+            ds_ = copy.deepcopy(ds_)
+        elif r_ < 0.42:
+            ds_ = ds_.model_copy(deep=True)
+        return ds_, m_
 
     pool = [fresh_set() for _ in range(3)]
     arrays = []  # (array, Snap at creation, index of set it was built from)
